@@ -176,6 +176,26 @@ func genSeqCache(prop string, seed uint64, tier string, kinds []string) *SeqScen
 				sc.Ops = append(sc.Ops, advance())
 			}
 		}
+		if g.r.Bool(0.0004) {
+			// a big cache: more entries than any per-pass budget or batch could
+			// cover (2^16 and beyond), the expiring ones scattered among them;
+			// two clock advances of a few intervals each must leave only the
+			// immortal entries
+			iv := []int64{1000, int64(time.Millisecond), int64(time.Second)}[g.r.Intn(3)]
+			sc.A.Ctor.Ctor, sc.A.Ctor.Interval = "default", iv
+			sc.A.HashMode, sc.A.CollideN = "det", 0 // one chain of 70 000 keys is quadratic work
+			if sc.CBKind == 2 {
+				sc.CBKind = 1
+			}
+			sc.Ops = append(sc.Ops[:0], Op{K: XBulkInsert, Key: 7000, Val: 300000, N: 66000 + g.r.Intn(30000), D: sentinelNoExp})
+			for i := 0; i < 8+g.r.Intn(12); i++ {
+				sc.Ops = append(sc.Ops, Op{K: CSet, Key: i, Val: g.val(), D: []int64{1, 3, 50}[g.r.Intn(3)]})
+			}
+			sc.Ops = append(sc.Ops, Op{K: CCount},
+				Op{K: XAdvance, D: 2*iv + 60, N: 2}, Op{K: CCount},
+				Op{K: XAdvance, D: 3 * iv, N: 2}, Op{K: CCount})
+			return sc
+		}
 		ns := 1 + g.r.Intn(8)
 		swapAt := -1
 		if g.r.Bool(0.4) {
